@@ -643,7 +643,7 @@ async fn drive(c: &Case) -> CheckResult {
                     break;
                 }
                 waited += 1;
-                if waited > 400 {
+                if waited > 4000 {
                     return Ok(CaseInfo::trivial().class("driver-inconclusive-delivery"));
                 }
             }
@@ -657,7 +657,8 @@ async fn drive(c: &Case) -> CheckResult {
             settle(if tries == 0 { 150 } else { 2000 }).await;
             merge(&mut got, tap.take());
             let complete = got.keepalives >= want_ka && (!want_down || got.closed);
-            if complete || tries >= 20 {
+            // (up to ~2 s of real time for what is normally there after the first settle)
+            if complete || tries >= 300 {
                 break;
             }
             tries += 1;
